@@ -14,7 +14,7 @@ TECHNIQUE = ("explicit-state BFS over histories of response datagrams and clock 
 
 def run(tier: str, seed: int) -> Tuple[Stats, str, List[str], Dict[str, Any]]:
     stats = Stats()
-    depth = 3 if tier == "quick" else 4
+    depth = 4 if tier == "quick" else 5
     logs: Dict[str, list] = {}
     # abstraction self-check: with and without de-duplication the same canonical states per level
     chk_depth = 2
